@@ -229,3 +229,18 @@ func NextTurn(nonce byte, workingHeight uint32) interfaces.Transaction {
 		[]*common2.Attribute{{Usage: common2.Nonce, Data: []byte{nonce}}},
 		[]*common2.Input{}, []*common2.Output{}, 0, noProgs())
 }
+
+// ReturnDepositOut is one OTReturnSideChainDepositCoin output carrying a deposit hash.
+func ReturnDepositOut(to common.Uint168, value int64, d common.Uint256) *common2.Output {
+	return &common2.Output{
+		AssetID: core.ELAAssetID, Value: common.Fixed64(value), ProgramHash: to,
+		Type:    common2.OTReturnSideChainDepositCoin,
+		Payload: &outputpayload.ReturnSideChainDeposit{Version: 0, GenesisBlockAddress: "XKUh4GLhFJiqAMTF6HyWQrV9pK9HcGUdfJ", DepositTransactionHash: d},
+	}
+}
+
+// ReturnDepositTx builds a ReturnSideChainDepositCoin transaction from arbitrary outputs (return
+// outputs and ordinary change outputs in any order).
+func ReturnDepositTx(nonce byte, ins []*common2.Input, outs ...*common2.Output) interfaces.Transaction {
+	return Typed(common2.ReturnSideChainDepositCoin, 0, &payload.ReturnSideChainDepositCoin{}, nonce, ins, outs)
+}
